@@ -64,16 +64,22 @@ CLAIMS = {
              "only argument types; an existing test inserts a call with an out-of-range window).",
         technique=_T + "; protocol obligations via ghost call recorders; scoping checker as ghost function over the result tree"),
     "C05": dict(
-        text="Thin: the linear-integer lowering inside UEq.problem.solve is proved (lower_e returns the coefficient "
-             "vector of its argument by structural induction, lower_p is a sound lowering of Eq/Conj/Disj/Cases, the "
-             "solution read back denotes the model value), normalize preserves values, and DoReplace's protocol is "
-             "proved on real procedures: exactly the unified prefix is replaced by one call of the original "
-             "sub-procedure with the solved arguments, every other statement is kept, Check_Aliasing runs on the result.",
+        text="The structural matcher is under contract case by case (unify_stmts for all statement constructors, "
+             "unify_e for all expression shapes incl. all comparison pairs, unify_accesses for window and dense "
+             "arguments, holes for bools and strides, to_ueq/from_ueq): each case is proved to return normally only "
+             "for nodes of equal constructor/operator/literal and to add exactly the equations that make the callee "
+             "node equal to the block node under the hole assignment (two equations per loop, one per index "
+             "dimension, one buffer per callee buffer). The linear-integer lowering inside UEq.problem.solve is proved "
+             "(coefficient vectors, sound lowering of Eq/Conj/Disj/Cases, solution read-back), normalize preserves "
+             "values, and DoReplace's protocol is proved on real procedures (exactly the unified prefix is replaced "
+             "by one call with the solved arguments, Check_Aliasing runs on the result).",
         design_ref="3/C05",
-        note="The structural matcher (Unification.unify_stmts/unify_e, BufVar window case split, to_ueq/from_ueq) and "
-             "the inline-inverse sentence are NOT covered; the SMT oracle is assumed. Known finding F9: replace() "
-             "does not check the callee's assertions at the new call site (no repair keeps the suite passing).",
-        technique=_T),
+        note="Bounded parts: list lengths of the schematic shapes; an end-to-end replace+inline translation "
+             "validation of 71 (block, callee) pairs is reported as bounded. Assumes the callee is alpha-renamed, "
+             "FreeVars/Get_Live_Variables, the SMT oracle; loop modes and local precisions are outside the store "
+             "semantics. Known finding F9: replace() does not check the callee's assertions at the new call site "
+             "(no repair keeps the suite passing).",
+        technique=_T + "; bounded translation validation of replace by inlining back"),
     "C06": dict(
         text="Partial: the index arithmetic of every forwarding closure (insert, replace/delete, wrap) is proved for "
              "all positions and list lengths against the list-concatenation model; _local_forward is proved to splice "
